@@ -138,7 +138,10 @@ class UnitRun:
                 if tok in code:
                     # identify by the next fn/struct name
                     ident = None
-                    for look in self.lines[n - 1:n + 6]:
+                    inside = self.fn_at(n)
+                    if inside is not None and tok in ("assume(", "admit("):
+                        ident = inside[3]["path"].split("::")[-1]
+                    for look in ([] if ident else self.lines[n - 1:n + 6]):
                         m = re.search(r"\b(fn|struct|spec fn)\s+([A-Za-z_0-9]+)", look)
                         if m:
                             ident = m.group(2)
